@@ -216,13 +216,18 @@ class Expander:
         A._site = self.site
         return alts
 
-    def decide(self, goals=(), extra=(), contradiction=False):
+    def decide(self, goals=(), extra=(), contradiction=False, more_choices=()):
         """All goals follow (or, with contradiction=True, the facts are unsatisfiable) in every combination of cases.
         -> (ok, description of the first failing case or '')"""
         A = self.A
         base = A.facts_at(self.site[0], self.site[1], extra)
         A._site = self.site
         defs, choices = self._closure(base, goals)
+        for name, alts in more_choices:
+            d2, c2 = self._closure([c for alt in alts for c in alt], ())
+            defs += d2
+            choices += [c for c in c2 if c[0] not in {x[0] for x in choices}]
+            choices.append((name, alts))
         part = self._join_partition()
         if part:
             d2, c2 = self._closure([c for alt in part for c in alt], ())
@@ -251,5 +256,5 @@ class Expander:
         return True, ''
 
 
-def decide_at(A, block, idx, goals=(), extra=(), contradiction=False):
-    return Expander(A, (block, idx)).decide(goals, extra, contradiction)
+def decide_at(A, block, idx, goals=(), extra=(), contradiction=False, more_choices=()):
+    return Expander(A, (block, idx)).decide(goals, extra, contradiction, more_choices)
